@@ -178,7 +178,10 @@ Swap(i) ==
     /\ last' = [op |-> "swap_sites", i |-> i]
     /\ Step(last' @@ [nfac |-> <<1, 1>>])
 
-\* permute_sites(perm): new site k is old site perm[k]; sign = product over inverted pairs of (-1)^(n n')
+\* permute_sites(perm): site i moves to position perm[i] (the direction the implementation, its tests and compute_K
+\* use; the docstring that promised the inverse is corrected by the fix of C09-permute-sites-inverse);
+\* sign = product over inverted pairs of (-1)^(n n').  PermutePsi(P, kinds, q): new site k is old site q[k].
+InvPerm(p) == [k \in 1..Len(p) |-> (CHOOSE j \in 1..Len(p) : p[j] = k - 1) - 1]
 Perms(n) == CASE n = 2 -> {<<1, 0>>} [] n = 3 -> {<<1, 2, 0>>, <<2, 1, 0>>, <<0, 2, 1>>}
               [] n = 4 -> {<<1, 0, 3, 2>>, <<3, 0, 1, 2>>, <<2, 3, 0, 1>>} [] OTHER -> {}
 PermutePsi(P, kinds, perm) ==
@@ -192,7 +195,7 @@ PermutePsi(P, kinds, perm) ==
           IN IF inv % 2 = 0 THEN At(P, old) ELSE GNeg(At(P, old))))
 Permute(perm) ==
     /\ Live /\ "permute_sites" \in Ops /\ ~Inf(R) /\ perm \in Perms(NL(R))
-    /\ R' = FrameK(R, [k \in 1..NL(R) |-> R.kinds[perm[k] + 1]]) /\ psi' = PermutePsi(psi, R.kinds, perm) /\ nrm' = nrm
+    /\ R' = FrameK(R, [k \in 1..NL(R) |-> R.kinds[InvPerm(perm)[k] + 1]]) /\ psi' = PermutePsi(psi, R.kinds, InvPerm(perm)) /\ nrm' = nrm
     /\ mode' = IF mode = "raw" THEN "loose" ELSE mode
     /\ last' = [op |-> "permute_sites", perm |-> perm]
     /\ Step(last' @@ [nfac |-> <<1, 1>>])
